@@ -768,7 +768,7 @@ DEC_HELPERS = {
 }
 
 
-def tables_again(T, suffix="2"):
+def tables_again(T, suffix="2", prefix=""):
     """Go statements that emit Values/Strings/ValueMap/StringMap once more (keys values2 …): the tables are a function of the
     declaration, not of what was decoded before"""
     return ('''	{
@@ -777,8 +777,8 @@ def tables_again(T, suffix="2"):
 		for _, v := range z.Values() {
 			p = append(p, verifDec(v))
 		}
-		emit("values%(s)s", strings.Join(p, ","))
-		emit("strings%(s)s", strings.Join(z.Strings(), ","))
+		emit("%(p)svalues%(s)s", strings.Join(p, ","))
+		emit("%(p)sstrings%(s)s", strings.Join(z.Strings(), ","))
 		m := z.ValueMap()
 		ks := make([]string, 0, len(m))
 		for k := range m {
@@ -789,7 +789,7 @@ def tables_again(T, suffix="2"):
 		for _, k := range ks {
 			p = append(p, k+"="+verifDec(m[k]))
 		}
-		emit("vmap%(s)s", strings.Join(p, ","))
+		emit("%(p)svmap%(s)s", strings.Join(p, ","))
 		sm := z.StringMap()
 		vs := make([]%(T)s, 0, len(sm))
 		for k := range sm {
@@ -800,9 +800,9 @@ def tables_again(T, suffix="2"):
 		for _, k := range vs {
 			p = append(p, verifDec(k)+"="+sm[k])
 		}
-		emit("smap%(s)s", strings.Join(p, ","))
+		emit("%(p)ssmap%(s)s", strings.Join(p, ","))
 	}
-''' % {"T": T, "s": suffix})
+''' % {"T": T, "s": suffix, "p": prefix})
 
 
 # ------------------------------------------------------------------------------------------------
@@ -1041,13 +1041,81 @@ def history_go(T, ops):
     return "".join(src)
 
 
-def again_go(T, win=(), suffix="2"):
+def again_go(T, win=(), suffix="2", prefix=""):
     """every getter, and String / IsValid over the window, observed once more (keys values<s> strings<s> vmap<s> smap<s> str<s>:x valid<s>:x)"""
-    src = tables_again(T, suffix)
+    src = tables_again(T, suffix, prefix)
     if win:
         src += "\tfor _, x := range []%s{%s} {\n" % (T, ", ".join(str(v) for v in win))
-        src += '\t\temit("str%s:"+verifDec(x), x.String())\n\t\temit("valid%s:"+verifDec(x), strconv.FormatBool(x.IsValid()))\n\t}\n' % (suffix, suffix)
+        src += ('\t\temit("%sstr%s:"+verifDec(x), x.String())\n\t\temit("%svalid%s:"+verifDec(x), strconv.FormatBool(x.IsValid()))\n\t}\n'
+                % (prefix, suffix, prefix, suffix))
     return src
+
+
+def scribbles(rng, en, decl):
+    """what a CALLER may do with the slices / maps the getters hand out (they are the package-level tables themselves): 2-4 writes
+    ("setv", j, v) ("sets", j, s) ("putvm", s, v) ("delvm", s) ("putsm", v, s) ("delsm", v)"""
+    T, kind = en["T"], en["kind"]
+    vals = [v for _, v in decl]
+    names = [trim(T, n) for n, _ in decl]
+    und = [v for v in window(kind, vals) if v not in vals] or [vals[0]]
+    n = len(decl)
+    pool = [("setv", rng.randrange(n), rng.choice(und + vals)), ("sets", rng.randrange(n), rng.choice(["Zz", names[0].lower(), ""])),
+            ("putvm", rng.choice(["Zz", names[-1]]), rng.choice(und + vals)), ("delvm", rng.choice(names)),
+            ("putsm", rng.choice(und + vals), rng.choice(["Zz", names[0]])), ("delsm", rng.choice(vals))]
+    if n >= 2:
+        a, b = rng.sample(range(n), 2)            # two entries of Values() trade places (what an in-place sort does)
+        pool += [("swapv", a, b)]
+    rng.shuffle(pool)
+    out = []
+    for op in pool[:rng.randint(2, 4)]:
+        if op[0] == "swapv":
+            out += [("setv", op[1], vals_sorted(decl)[op[2]]), ("setv", op[2], vals_sorted(decl)[op[1]])]
+        else:
+            out.append(op)
+    return out
+
+
+def vals_sorted(decl):
+    return sorted(v for _, v in decl)
+
+
+def scribble_sexp(ops):
+    out = ["scribble"]
+    for op in ops:
+        k = op[0]
+        if k == "setv":
+            out.append([k, str(op[1]), str(op[2])])
+        elif k == "sets":
+            out.append([k, str(op[1]), Q(op[2])])
+        elif k == "putvm":
+            out.append([k, Q(op[1]), str(op[2])])
+        elif k == "delvm":
+            out.append([k, Q(op[1])])
+        elif k == "putsm":
+            out.append([k, str(op[1]), Q(op[2])])
+        else:
+            out.append([k, str(op[1])])
+    return out
+
+
+def scribble_go(T, ops, win):
+    """the caller-side writes, then every method observed under the key prefix A/ (a sub-case of its own, region Out)"""
+    src = ["\t// ---- a CALLER writes through what the getters returned (outside the property; the model applies the same writes)\n"]
+    for op in ops:
+        k = op[0]
+        if k == "setv":
+            src.append("\tz.Values()[%d] = %s(%d)\n" % (op[1], T, op[2]))
+        elif k == "sets":
+            src.append("\tz.Strings()[%d] = %s\n" % (op[1], gostr(op[2])))
+        elif k == "putvm":
+            src.append("\tz.ValueMap()[%s] = %s(%d)\n" % (gostr(op[1]), T, op[2]))
+        elif k == "delvm":
+            src.append("\tdelete(z.ValueMap(), %s)\n" % gostr(op[1]))
+        elif k == "putsm":
+            src.append("\tz.StringMap()[%s(%d)] = %s\n" % (T, op[1], gostr(op[2])))
+        else:
+            src.append("\tdelete(z.StringMap(), %s(%d))\n" % (T, op[1]))
+    return "".join(src) + again_go(T, win, suffix="A", prefix="A/")
 
 
 def hist_kinds(ops):
@@ -1791,11 +1859,21 @@ def layout(ctx, g, en, allow_file=True, force=None):
         else:
             sel = ["-type=" + T]
     extra = {"zz_comp.go": "package cs\n\n" + comp_src} if comp_src else {}
-    # -v / -verbose are logging-only flags: the output must not depend on them
-    verbose = rng.choice(["-v", "-verbose"]) if rng.random() < 0.3 else None
+    # behaviour-neutral flags: the generated methods must not depend on them.  -v / -verbose only log; -ver= / -version= only pin the
+    # version printed in the header comment; -sep / -separate only decide into which file(s) the output of a -file run goes
+    neutral = []
+    verbose = rng.choice(["-v", "-verbose"]) if rng.random() < 0.35 else None
     if verbose:
-        sel = [verbose] + sel
-    return {"verbose": bool(verbose), "mode": mode, "files": files, "sel": sel, "companion": comp, "extra": extra, "genheader": sorted(en.get("genheader", [])),
+        neutral.append(verbose)
+    if rng.random() < 0.2:
+        neutral.append(rng.choice(["-ver=v9.9.9", "-version=v0.0.1-verif"]))
+    if rng.random() < 0.2:
+        neutral.append(rng.choice(["-sep", "-separate"]))
+    rng.shuffle(neutral)
+    if neutral:
+        k = rng.randint(0, 1)                # before or after the selection flag
+        sel = neutral + sel if k == 0 else sel + neutral
+    return {"verbose": bool(verbose), "neutral": [f.split("=")[0] for f in neutral], "mode": mode, "files": files, "sel": sel, "companion": comp, "extra": extra, "genheader": sorted(en.get("genheader", [])),
             "nfiles": len(en["files"]), "spread": sum(1 for f in en["files"] if f["blocks"]) > 1}
 
 
@@ -1839,6 +1917,22 @@ def compile_class(msg):
     if "duplicate key" in msg:
         return "error:duplicate-key"
     return "error:other"
+
+
+def guard_class(st):
+    """the compiler's FIRST message about a package compiled against an un-regenerated enum file -> the class of Model/Enum.lean guardFirst"""
+    if st == "ok":
+        return "none"
+    first = (st[len("error: "):] if st.startswith("error: ") else st).split(" | ")[0]
+    if "overflows" in first:
+        return "overflows"
+    if "must not be negative" in first:
+        return "negative"
+    if "out of bounds" in first or "out of range" in first:
+        return "bounds"
+    if "undefined:" in first:
+        return "undefined"
+    return "other:" + first[:120]
 
 
 def features_of(en):
@@ -1899,6 +1993,10 @@ def _all_names(en):
     return [n for f in en["files"] for b in f["blocks"] for s in b["specs"] for n in s["names"] if n != "_"]
 
 
+# pairs of type names with the same ToCamelCaseGO image (and different generated file names)
+TABLE_CLASH_PAIRS = [("Color", "color"), ("Level", "level"), ("Kind", "kind"), ("My_Type", "MyType"), ("Op_Code", "OpCode")]
+
+
 def c01_case(ctx, g, cid, shape, feature, flags, mode):
     """one package: one enum (two for -type=A,B and sometimes for -file / -type=*), rendered for the selection mode"""
     rng = ctx.rng
@@ -1908,7 +2006,17 @@ def c01_case(ctx, g, cid, shape, feature, flags, mode):
     if feature and feature.startswith("kind:") and kinds and feature[5:] not in kinds:
         kinds = None
     clash = None
-    if shape in ("clash", "clash-ok", "clash-decl", "clash-type-ok"):
+    if shape == "table-clash":
+        # two enum types whose names ToCamelCaseGO maps to one identifier: both get the tables `_<that>_max`, `_<that>_values`, ...
+        clash = shape
+        for _ in range(60):
+            T1, T2 = rng.choice(TABLE_CLASH_PAIRS)
+            if rng.random() < 0.5:
+                T1, T2 = T2, T1
+            ens = [g.enum("wf", "prefixed", kinds=kinds or LISTED_KINDS, T=T1), g.enum("wf", "prefixed", kinds=kinds or LISTED_KINDS, T=T2)]
+            if not (set(_all_names(ens[0])) & set(_all_names(ens[1]))) and not (ens[0].get("aux") and ens[1].get("aux")):
+                break
+    elif shape in ("clash", "clash-ok", "clash-decl", "clash-type-ok"):
         clash, shape0 = shape, "wf"
         ens = [g.enum("wf", "unprefixed" if shape != "clash-type-ok" else None, kinds=kinds,
                       T=rng.choice(CLASH_TYPES_OK) if shape == "clash-type-ok" else None)]
@@ -1933,7 +2041,7 @@ def c01_case(ctx, g, cid, shape, feature, flags, mode):
                 old_ = rng.choice(tnames)
                 for sp in specs:
                     sp["names"] = [nm_ if n == old_ else n for n in sp["names"]]
-    if mode == "list" or (mode in ("file", "star") and rng.random() < 0.4):
+    if len(ens) == 1 and (mode == "list" or (mode in ("file", "star") and rng.random() < 0.4)):
         for _ in range(60):
             T2 = rng.choice([t for t in TYPE_NAMES if t != ens[0]["T"] and t.lower() != ens[0]["T"].lower()])
             e2 = g.enum(rng.choice(["wf", "wf", "wf", shape if (shape not in C01_VARIANTS and not clash) else "wf"]), None, kinds=kinds, T=T2)
@@ -2058,11 +2166,13 @@ def c01_leg(ctx, res, n):
     for sh in ["neg", "big", "dupval", "dupname"]:
         for m in modes:
             plan.append((sh, None, [], m))
+    for m in modes:
+        plan.append(("table-clash", None, ["json"] if m == "star" else [], m))
     plan = plan[:n] if len(plan) > n else plan
     # 3. random
     while len(plan) < n:
         r = rng.random()
-        sh = "wf" if r < 0.75 else rng.choice(["neg", "big", "dupval", "dupname", "typedexpr"] + C01_VARIANTS + ["clash", "clash", "clash-ok", "clash-ok", "clash-decl", "clash-type-ok"])
+        sh = "wf" if r < 0.75 else rng.choice(["neg", "big", "dupval", "dupname", "typedexpr"] + C01_VARIANTS + ["clash", "clash", "clash-ok", "clash-ok", "clash-decl", "clash-type-ok", "table-clash"])
         fl = [f for f in C01_FLAGS if rng.random() < (0.15 if f == "bit" else 0.4)]
         if "gorm" in fl and "sql" not in fl and rng.random() < 0.85:
             fl.append("sql")
